@@ -40,6 +40,14 @@ func drawMessages(r *Run, n int, maxLen int, extra []int) []sentMsg {
 			src := out[t.Draw(len(out))]
 			m.P = src.P
 			m.Data = append([]byte(nil), src.Data...)
+		} else if i > 0 && len(out[len(out)-1].Data) > 64 && t.Pct(15+35*b2i(len(out[len(out)-1].Data) >= 32768)) {
+			// a slice out of the previous message, so that back-references reach
+			// a drawn distance into the window (log-like repetition)
+			src := out[len(out)-1]
+			a := t.Draw(len(src.Data) - 32)
+			n := 32 + t.Draw(len(src.Data)-a-31)
+			m.P = Payload{Kind: 9, Len: n, Seed: uint32(a)}
+			m.Data = append([]byte(nil), src.Data[a:a+n]...)
 		} else {
 			m.P = DrawPayload(t, maxLen, extra...)
 			m.Data = m.P.Bytes()
@@ -141,7 +149,7 @@ func readMsg(r *Run, c *websocket.Conn, ctx context.Context, api int, bufSize in
 	}
 }
 
-var readBufSizes = []int{4096, 1, 3, 7, 512, 65536}
+var readBufSizes = []int{4096, 1, 3, 7, 512, 65536, 32768}
 
 func firstDiff(a, b []byte) int {
 	n := len(a)
@@ -358,3 +366,10 @@ func checkTap(r *Run, name string, tap []byte, fromClient, deflate, takeover boo
 }
 
 var _ = simrt.ChunkAll
+
+func b2i(b bool) int {
+	if b {
+		return 1
+	}
+	return 0
+}
